@@ -315,6 +315,46 @@ theorem exact_spend_tight_counterexample :
 example : NewtonLowerDec demoI demoT 0 ∧ tokensForExactIn demoT 18 1000000000000000000 5 = some 5 := by
   refine ⟨exact_spend_tight_counterexample.1, by decide⟩
 
+/-! ## what happens when the Newton result violates the contract (as the real one does)
+
+  `TokensApproximation` stops as soon as |f(x)| < 10^-12 (absolute, decimal units).  For a spend below
+  10^-12 liquidity units the FIRST GUESS (1 token per liquidity unit) already passes that test, so at
+  price 1000 the result is 1000× too many tokens; for ordinary spends it overshoots by up to 10^-12.
+  The oracle below is exactly what the real function returns in the harness' witness trace
+  (price 1000, 18/18 decimals: `T(s, p) = p`). -/
+
+def dustCfg : Cfg := { demoCfg with genAlloc := 1000000000000000000000000 }
+def dustI : Int → Int := fun x => 1000 * x
+def dustOps : List Op :=
+  [.fund 0 2000000000000000000000, .fund 1 1000000000000000000000,
+   .create 1000000000000000000000000 0 1000000000000000000 1000000000000000000000 18 true 0 3600 ⟨500000000000000000⟩ 3 0,
+   .bes 1 1000 1]
+
+/-- the contract really is violated by this oracle … -/
+theorem dust_violates_newton : ¬ NewtonUpper dustI demoT 18 := by
+  intro h
+  have := h 1000000000000000000 980 980 (by decide)
+  revert this
+  decide
+
+/-- … and then the three clauses that were conditional on it fail: a spend of 1000 is granted 980
+    base tokens that cost 980000, the plan account is short of the curve value by 979020 (one trade),
+    and selling the tokens back returns 960400 for the 1000 paid. -/
+theorem exact_spend_no_more_counterexample :
+    let st := run dustI demoT (init dustCfg) dustOps
+    st.plan.map (fun p => (p.sold, cost dustI p.L 1000000000000000000 p.sold)) = some (1000000000000000980, 980000) := by
+  decide
+
+theorem solvent_with_exact_spend_counterexample :
+    let st := run dustI demoT (init dustCfg) dustOps
+    st.plan.map (fun p => (cost dustI p.L 0 p.sold, st.planLiq, st.trades)) =
+      some (1000000000000000980000, 1000000000000000000980, 1) := by decide
+
+theorem roundtrip_no_profit_counterexample :
+    let st := run dustI demoT (init dustCfg) (dustOps.take 3)
+    let st' := run dustI demoT st [.bes 1 1000 1, .sell 1 980 1]
+    st.plan.map (·.sold) = st'.plan.map (·.sold) ∧ st'.liq 1 = st.liq 1 + 959400 := by decide
+
 /-! ## who may trade, and when -/
 
 theorem trade_rejected {I T} {st : State} {a : Nat} {e : Err} (he : tradeable st a = .error e) (hne : e ≠ .ok)
